@@ -130,6 +130,32 @@ class Degenerate:
         self.count += len(kids)
         return kids
 
+    SPELLED = ["sin", "cos", "tan", "cot", "sec", "csc", "log", "ln", "lg", "lim", "exp", "max", "min", "det", "gcd", "mod", "arcsin", "sinh",
+               "cosh", "tanh", "arg", "dim", "ker", "sup", "inf", "and", "abc", "dx", "if", "Pr", "Re"]
+
+    def spelled_run(self, depth):
+        """a word (function name or not) written one letter per <mi>, as some converters do, with a few more single letters, a number or
+        a fenced argument in front of and behind it: the clean-up glues letter runs into names and must not lose the neighbours"""
+        r = self.rng
+        kids = []
+        if r.random() < 0.4:
+            kids.append(r.choice([mn("2"), mi("a"), mn("13"), mo("+"), mo("-")]))
+        for ch in r.choice(self.SPELLED):
+            kids.append(mi(ch))
+        k = r.random()
+        if k < 0.6:
+            for _ in range(r.randint(1, 3)):
+                kids.append(mi(r.choice("xyztabnk")))
+        elif k < 0.75:
+            kids.append(mn(r.choice(["2", "10", "3.5"])))
+            kids.append(mi(r.choice("xyz")))
+        elif k < 0.9:
+            kids += [mo("("), mi(r.choice("xyz")), mo(")")]
+        if r.random() < 0.5:
+            kids += [mo(r.choice(["+", "=", "-"])), r.choice([mn("1"), mi("c"), mn("47")])]
+        self.count += len(kids)
+        return kids
+
     def fenced_then_script(self, depth):
         """a fenced group written as sibling tokens, directly followed by a script with an empty base (TeX '(x+1){}^2', '[a,b]{}_0'), last in
         its row or followed by a 2-D element: the script takes the whole group as its base"""
@@ -184,7 +210,8 @@ class Degenerate:
         k = r.random()
         d = depth + 1
         if k < 0.05:
-            return mrow(*(self.special_run(d) if r.random() < 0.75 else self.fenced_then_script(d)))
+            x = r.random()
+            return mrow(*(self.special_run(d) if x < 0.6 else self.fenced_then_script(d) if x < 0.8 else self.spelled_run(d)))
         if k < 0.25:
             n = r.choice([0, 1, 1, 2, 3, 3, 4, 5])
             e = mrow(*[self.child(d) for _ in range(n)])
